@@ -245,11 +245,13 @@ pub fn str_to_dec(lit: &str) -> Result<(i128, isize), ParseDecimalError> {
     if lit.is_empty() {
         return Err(ParseDecimalError::Invalid);
     }
+    let len_before = lit.len();
     lit.skip_leading_zeroes();
     if lit.is_empty() {
         // There must have been atleast one zero. Ignore sign.
         return Ok((0, 0));
     }
+    let n_leading_zeroes = len_before - lit.len();
     let mut coeff = 0_u128;
     let mut overflow = false;
     // Parse integral digits.
@@ -263,7 +265,7 @@ pub fn str_to_dec(lit: &str) -> Result<(i128, isize), ParseDecimalError> {
             n_frac_digits = lit.accum_coeff(&mut coeff, &mut overflow);
         }
     }
-    let n_digits = n_int_digits + n_frac_digits;
+    let n_digits = n_leading_zeroes + n_int_digits + n_frac_digits;
     if n_digits == 0 {
         return Err(ParseDecimalError::Invalid);
     }
